@@ -135,10 +135,27 @@ def check_dispatch(ctx: Ctx):
                 pp = next((p.name for p in f.call_params if "pair" in p.name.lower()), None)
                 if pp is None:
                     raise AnchorMissing(f"{f.qual}: no pair parameter")
-                it = ApproxInterp(prog, f, {pp: pair}, self_obj=self_obj)
-                it.root.no_inline = {cc.qual, fit.qual, ucls.lookup("__init__").qual}
-                out = it.run()
+                holder = []
+
+                def make(prefix, pair=pair, self_obj=self_obj):
+                    it_ = ApproxInterp(prog, f, {pp: pair}, self_obj=self_obj, prefix=prefix)
+                    it_.root.no_inline = {cc.qual, fit.qual, ucls.lookup("__init__").qual}
+                    holder.append(it_)
+                    return it_
+
+                outs_ = enumerate_paths(make, max_paths=16)
                 construct = f"{f.qual}:backend={given},n_dim={ndim},pred_empty={pe},ref_empty={re_}"
+                if len(outs_) > 1:
+                    used = []
+                    for o_, i_ in zip(outs_, holder):
+                        used.append(sorted({c[1].member if isinstance(c[1], EnumSym) else repr(c[1]) for c in i_.root.cca_calls}))
+                    conds = sorted({norm(d[0]) for o_ in outs_ for d in o_.decisions if isinstance(d[0], ast.AST)})
+                    if len({tuple(u) for u in used}) > 1:
+                        ctx.violated("R05.1", f, f.node, construct + ":backend", "the backend is not determined by the configured backend and the input's dimensionality: it also depends on " + "; ".join(conds)[:160], {"backends_on_paths": used})
+                    else:
+                        ctx.undecided("R05.1", f, f.node, construct, "dispatch splits on " + "; ".join(conds)[:160])
+                    continue
+                it, out = holder[0], outs_[0]
                 if out.decisions or out.kind != "return":
                     ctx.decide("R05.1", f, out.node, construct, "dispatch evaluable", None if out.decisions else False, {"outcome": out.kind, "exc": out.exc})
                     continue
